@@ -414,7 +414,9 @@ pub fn long_suite(out: &mut Out, seed: u64, thorough: bool) {
 					// length — every episode leaves fresh rounding residue in the running sums
 					2 => {
 						if (t % seg) % cycle < 20 {
-							x = ((x + 0.5 * rr.gauss()).max(1.0) * 100.0).round() / 100.0;
+							// moves of about a tenth of the price level: neighbouring values then lie in different binades often enough
+							// for the residues of the two running sums to take opposite signs
+							x = ((x + 0.12 * x.abs().max(1.0) * rr.gauss()).max(1.0) * 100.0).round() / 100.0;
 						}
 					}
 					1 => {}
